@@ -1,7 +1,7 @@
-\* thorough: two calls with nested calls, cancellation, vanishing client
-SPECIFICATION MCSpec
+\* thorough (-coverage 1): nested server->client call, caller cancellation, vanishing client
+SPECIFICATION Spec
 CONSTANTS
-  Calls = {"k1", "k2"}
+  Calls = {"k1"}
   CCl = {"c1"}
   SCl = {"s1"}
   Stateless = FALSE
@@ -15,6 +15,5 @@ CONSTANTS
   Cancels = TRUE
   AwaitHandlers = TRUE
   StopSseOnClose = TRUE
-VIEW MCView
 INVARIANTS TypeOK NothingDispatchedAfterClose RunningHandlersFinish SessionRemoved
 CHECK_DEADLOCK FALSE
